@@ -320,3 +320,27 @@ impl Dsize {
     pub fn min(self, o: Dsize) -> (r: Dsize) ensures r.0 == (if self.0 <= o.0 { self.0 } else { o.0 }) { if self.0 <= o.0 { self } else { o } }
     pub fn max(self, o: Dsize) -> (r: Dsize) ensures r.0 == (if self.0 >= o.0 { self.0 } else { o.0 }) { if self.0 >= o.0 { self } else { o } }
 }
+
+// ---- `$name::div_ceil<T: Into<u32>>(self, rhs: T) -> u32 { self.0.div_ceil(rhs.into()) }` and `PartialOrd<u32> for $name` of the newtype macro ----
+// U32Like names the u32 a right-hand side converts into (`Into<u32>` itself has no specification for a generic T)
+pub trait U32Like { spec fn to_u32(self) -> u32; }
+impl U32Like for u32 { open spec fn to_u32(self) -> u32 { self } }
+impl U32Like for Base2K { open spec fn to_u32(self) -> u32 { self.0 } }
+impl U32Like for Dsize { open spec fn to_u32(self) -> u32 { self.0 } }
+pub open spec fn cdiv(a: int, b: int) -> int { if b <= 0 { 0 } else if a % b == 0 { a / b } else { a / b + 1 } }
+pub assume_specification[ u32::div_ceil ](a: u32, b: u32) -> (r: u32)
+    requires b > 0
+    ensures r == cdiv(a as int, b as int);
+impl TorusPrecision {
+    #[verifier::external_body]
+    pub fn div_ceil<T: Into<u32> + U32Like>(self, rhs: T) -> (r: u32) requires rhs.to_u32() > 0 ensures r == cdiv(self.0 as int, rhs.to_u32() as int) { self.0.div_ceil(rhs.into()) }
+}
+impl vstd::std_specs::cmp::PartialOrdSpecImpl<u32> for Dsize {
+    open spec fn obeys_partial_cmp_spec() -> bool { true }
+    open spec fn partial_cmp_spec(&self, other: &u32) -> Option<core::cmp::Ordering> {
+        if self.0 < *other { Some(core::cmp::Ordering::Less) } else if self.0 == *other { Some(core::cmp::Ordering::Equal) } else { Some(core::cmp::Ordering::Greater) }
+    }
+}
+impl core::cmp::PartialOrd<u32> for Dsize {
+    #[verifier::external_body] fn partial_cmp(&self, other: &u32) -> Option<core::cmp::Ordering> { self.0.partial_cmp(other) }
+}
